@@ -47,18 +47,23 @@ Section Searcher.
   Lemma emit_fst w ev w' r : BinaryDetect.emit sink w ev = (w', r) -> w' = fst (emit w ev).
   Proof. intro H. rewrite H. reflexivity. Qed.
 
+  Definition mode_byte (m : bin_mode) : option byte :=
+    match m with BNone => None | BQuit x | BConvert x => Some x end.
+
   Lemma detect_binary_trace buf s e cb w q cb' w' :
     detect_binary sink mode buf s e cb w = (q, cb', w') ->
-    (w' = w /\ cb' = cb) \/
-    (exists off, w' = fst (emit w (EBinary off)) /\ cb = None /\ cb' = Some off).
+    (w' = w /\ cb' = cb /\ (cb = None -> forall bb, mode_byte mode = Some bb -> memchr bb (sub buf s e) = None)) \/
+    (exists i bb, mode_byte mode = Some bb /\ memchr bb (sub buf s e) = Some i /\
+                  w' = fst (emit w (EBinary (s + i))) /\ cb = None /\ cb' = Some (s + i)).
   Proof.
     unfold detect_binary. destruct cb as [o|].
-    - intro H. injection H as _ <- <-. left. tauto.
-    - destruct mode as [|b0|b0]; [intro H; injection H as _ <- <-; left; tauto| |];
-        (destruct (memchr b0 (sub buf s e)) as [i|]; [|intro H; injection H as _ <- <-; left; tauto];
+    - intro H. injection H as _ <- <-. left. repeat split. discriminate.
+    - destruct mode as [|b0|b0]; [intro H; injection H as _ <- <-; left; repeat split; intros _ bb Hb; discriminate| |];
+        (destruct (memchr b0 (sub buf s e)) as [i|] eqn:M;
+         [|intro H; injection H as _ <- <-; left; repeat split; intros _ bb Hb; injection Hb as <-; exact M];
          destruct (BinaryDetect.emit sink w (EBinary (s + i))) as [w1 r] eqn:E;
          apply emit_fst in E;
-         destruct r; cbn; intro H; injection H as _ <- <-; right; exists (s + i); tauto).
+         destruct r; cbn; intro H; injection H as _ <- <-; right; exists i, b0; repeat split; assumption).
   Qed.
 
   (* what detect_binary guarantees when it lets the call through *)
@@ -89,7 +94,9 @@ Section Searcher.
     Hypothesis P_inert : forall cb w ev, inert ev -> P cb w -> P cb (fst (emit w ev)).
     Variables (binary : bool) (abs : nat) (buf : bytes).
     (* binary_data is only ever called from the guard of the slice strategies *)
-    Hypothesis P_binary : binary = true -> forall w off, P None w -> P (Some off) (fst (emit w (EBinary off))).
+    Hypothesis P_binary : binary = true -> forall w s e i bb,
+        mode_byte mode = Some bb -> memchr bb (sub buf s e) = Some i ->
+        P None w -> P (Some (s + i)) (fst (emit w (EBinary (s + i)))).
 
     Definition line_ok (cb' : option nat) (c : call) : Prop :=
       binary = false \/
@@ -102,8 +109,8 @@ Section Searcher.
       binary = true ->
       detect_binary sink mode buf s e cb w = (q, cb', w') -> P cb w -> P cb' w'.
     Proof.
-      intros Hb H HP. destruct (detect_binary_trace _ _ _ _ _ _ _ _ H) as [[-> ->]|(off & -> & -> & ->)]; [exact HP|].
-      apply P_binary; [exact Hb|exact HP].
+      intros Hb H HP. destruct (detect_binary_trace _ _ _ _ _ _ _ _ H) as [(-> & -> & _)|(i & bb & Hm & Hi & -> & -> & ->)]; [exact HP|].
+      eapply P_binary; eassumption.
     Qed.
 
     Lemma guard_pres c cb w q cb' w' :
@@ -169,7 +176,8 @@ Section Searcher.
   (* ---- slice strategies ---- *)
   Lemma slice_run_pres (P : option nat -> world -> Prop) sniff slice plan fp s0 :
     (forall cb w ev, inert ev -> P cb w -> P cb (fst (emit w ev))) ->
-    (forall w off, P None w -> P (Some off) (fst (emit w (EBinary off)))) ->
+    (forall w s e i bb, mode_byte mode = Some bb -> memchr bb (sub slice s e) = Some i ->
+                        P None w -> P (Some (s + i)) (fst (emit w (EBinary (s + i))))) ->
     (forall cb w c, line_ok true slice cb c -> P cb w -> P cb (fst (emit w (call_event 0 slice c)))) ->
     P None (fst (emit (s0, []) EBegin)) ->
     exists cb, P cb (slice_run sink mode sniff slice plan fp (s0, [])).
@@ -195,7 +203,7 @@ Section Searcher.
     intro Hm.
     destruct (slice_run_pres (fun _ w => Forall (ev_free b) (snd w)) sniff slice plan fp s0) as [cb H]; [| | | |exact H].
     - intros cb w ev Hi HP. rewrite emit_trace. constructor; [destruct ev; cbn in *; tauto|exact HP].
-    - intros w off HP. rewrite emit_trace. constructor; [exact I|exact HP].
+    - intros w s e i bb _ _ HP. rewrite emit_trace. constructor; [exact I|exact HP].
     - intros cb w c [Hb|[Hq _]] HP; [discriminate|]. rewrite emit_trace. constructor; [|exact HP].
       apply call_event_free. apply Hq. exact Hm.
     - rewrite emit_trace. constructor; [exact I|constructor].
@@ -219,7 +227,7 @@ Section Searcher.
     - intros [o|] w ev Hi HP; unfold P in *; rewrite emit_trace.
       + destruct HP as (a & off & bf & -> & Hf). exists (ev :: a), off, bf. split; [reflexivity|exact Hf].
       + constructor; [destruct ev; cbn in *; tauto|exact HP].
-    - intros w off HP. unfold P in *. rewrite emit_trace. exists [], off, (snd w). split; [reflexivity|exact HP].
+    - intros w s e i bb _ _ HP. unfold P in *. rewrite emit_trace. exists [], (s + i), (snd w). split; [reflexivity|exact HP].
     - intros [o|] w c Hok HP; unfold P in *; rewrite emit_trace.
       + destruct HP as (a & off & bf & -> & Hf). exists (call_event 0 slice c :: a), off, bf. split; [reflexivity|exact Hf].
       + destruct Hok as [Hb|[_ Hc]]; [discriminate|]. constructor; [|exact HP].
@@ -240,7 +248,7 @@ Section Searcher.
     intros HQ H0.
     destruct (slice_run_pres (fun _ w => Q w) sniff slice plan fp s0) as [cb H]; [| | | |exact H].
     - intros cb w ev Hi HP. apply HQ; [destruct ev; cbn in Hi; try contradiction; discriminate|exact HP].
-    - intros w off HP. apply HQ; [discriminate|exact HP].
+    - intros w s e i bb _ _ HP. apply HQ; [discriminate|exact HP].
     - intros cb w c _ HP. apply HQ; [unfold call_event; destruct (c_matched c); discriminate|exact HP].
     - exact H0.
   Qed.
